@@ -106,8 +106,19 @@ def tables(ctx):
 
     problems = []
     ctx.table('operation/forge.py reserved_entrypoints')
-    rows = sorted(((k, v[0]) for k, v in F.reserved_entrypoints.items()), key=lambda kv: kv[1])
-    lit = clist(f'({chex(k.encode())}, {cN(v)})' for k, v in rows)
+
+    def tag_of(v):
+        """the table may hold one-byte strings or integers; anything else counts as a mismatch (tag 10^6)"""
+        if isinstance(v, (bytes, bytearray)) and len(v) == 1:
+            return v[0]
+        if isinstance(v, int) and not isinstance(v, bool) and 0 <= v < 256:
+            return v
+        return 10 ** 6
+    try:
+        rows = sorted(((str(k), tag_of(v)) for k, v in dict(F.reserved_entrypoints).items()), key=lambda kv: kv[1])
+    except Exception as e:  # noqa: BLE001   the table is not even a mapping any more: compared as a mismatching table
+        rows = [('<unreadable: %r>' % e, 10 ** 6)]
+    lit = clist(f'({chex(k.encode("utf-8", "replace"))}, {cN(v)})' for k, v in rows)
     eq = 'list_eqb (prod_eqb bytes_eqb N.eqb)'
     if ctx.coq_mismatches('reserved', IMPORTS, 'fun _ : unit => map (fun p => (tx (fst p), snd p)) py_reserved', eq,
                           'unit', 'list (bytes * N)', [('tt', lit)]):
@@ -127,6 +138,15 @@ def tables(ctx):
         if not ok and isinstance(res, NotImplementedError):
             problems.append({'table': 'forge_operation dispatch', 'missing': k})
     return problems
+
+
+def safe_tables(ctx):
+    try:
+        return tables(ctx)
+    except lib.InternalError:
+        raise
+    except Exception as e:  # noqa: BLE001   a table of /repo changed shape: that is a table mismatch, not a checker failure
+        return [{'table': 'reserved_entrypoints', 'note': f'table comparison failed: {type(e).__name__}: {e}'[:300]}]
 
 
 # ---- generators -------------------------------------------------------------------------------------------------------
@@ -294,7 +314,7 @@ def run(ctx: lib.Ctx) -> None:
                 'distinct = distinct JSON group')
     import concurrent.futures
     pool = concurrent.futures.ThreadPoolExecutor(max_workers=1)
-    fut_tables = pool.submit(tables, ctx)   # coqc on the tables runs while the implementation is exercised
+    fut_tables = pool.submit(safe_tables, ctx)   # coqc on the tables runs while the implementation is exercised
     pool2 = concurrent.futures.ThreadPoolExecutor(max_workers=1)
 
     groups = []
